@@ -10,20 +10,38 @@ def run(tier, replay=None):
     env = common.san_env(dict(VERIF_TMP=common.scratch_dir()))
     total = int(subprocess.check_output([exe, 'c08count', common.seed(), nbase] and [exe, 'c08count', str(common.seed()), str(nbase)],
                                         env=env, timeout=300).split()[0])
-    sh = common.Sharded(exe, lambda a, b: ['c08', common.seed(), a, b, nbase], total, env=env, tag='c08', timeout=1500).run()
+    sh = common.Sharded(exe, lambda a, b: ['c08', common.seed(), a, b, nbase], total, env=env, tag='c08', timeout=1500)
+    sh.keep_prefix = '@cnt '
+    sh.run()
     common.absorb(res, sh)
+    # "a longer prefix of the same file never yields fewer objects"
+    per = {}
+    for line in sh.kept:
+        _, b, L, n = line.split()
+        per.setdefault(int(b), []).append((int(L), int(n)))
+    nonmono = 0
+    for b, lst in per.items():
+        lst.sort()
+        best = 0
+        for L, n in lst:
+            if n < best:
+                nonmono += 1
+                res.violation('longer-prefix-yields-fewer-objects', 'base %d: cut %d delivers %d objects, a shorter cut delivered %d' % (b, L, n, best), dict(case=None))
+            best = max(best, n)
     st = common.merge_stats(sh.stats)
     res.evaluations = st.get('sessions', 0)
     res.distinct = st.get('sessions_with_objects', 0)
     res.exhaustive = True
     res.rule = ('%d base files written by the library (levels {0,1,6,9} x container {16,100,1000} x trailer x final/initial header, 12-30 '
                 'objects of mixed classes incl. empty payloads, objects spanning containers); EVERY prefix length 0..size is opened and read; '
-                'expected = objects whose bytes lie wholly inside completely stored containers (independent container walk), compared '
+                'expected = objects whose bytes lie wholly inside completely stored containers (independent container walk; an object cut only inside a '
+                'tail the decoder skips rather than reads - union slack - may be delivered or not), the count never decreases with the prefix length, compared '
                 'member by member with the originals, then null, close returns, only the library\'s exception may escape open(); '
                 'distinct_nontrivial = truncation points that still deliver at least one object' % nbase)
     res.samples = st.get('samples', [])[:6]
     res.extra = dict(base_files=nbase, truncation_points=total, open_threw=st.get('open_threw', 0), objects_delivered=st.get('objects_delivered', 0),
-                     distinct_outcomes=st.get('distinct_outcomes', 0))
+                     distinct_outcomes=st.get('distinct_outcomes', 0), monotonicity_pairs_checked=sum(len(v) for v in per.values()),
+                     delivered_although_cut_in_skipped_tail=st.get('delivered_although_cut_in_skipped_tail', 0))
     if st.get('sessions', 0) < total and not (sh.crashes or sh.hangs or sh.viols):
         res.inconclusive.append('only %d of %d truncation points ran' % (st.get('sessions', 0), total))
     return res.finish()
